@@ -37,10 +37,22 @@ theorem document_main (env : NsEnv) (henv : envOK env = true) (cfg : Cfg) (hcfg 
     cases hs0
     split at hcs
     · rename_i M2 A ha
-      obtain ⟨_, hM2, hA, htag⟩ := child_start env hE (userDefault m) (serializerNsMap m) q attrs tag M2 A hM0 hq ha hname hattrs
+      obtain ⟨⟨X, hX, hXk⟩, hM2, hA, htag⟩ := child_start env hE (userDefault m) (serializerNsMap m) q attrs tag M2 A hM0 hq ha hname hattrs
+      have hYok : YOK [] M2 := by
+        intro u hu
+        refine ⟨rfl, serializerNsMap m, X, hX, hXk, ?_⟩
+        intro s hs
+        have hn0 : dget (serializerNsMap m) none = some u := by
+          rw [hX, dget_append] at hu
+          cases h0 : dget (serializerNsMap m) none with
+          | some v => rw [h0] at hu; exact hu
+          | none =>
+            rw [h0] at hu
+            exact absurd rfl (hXk _ (dget_some_mem _ _ _ hu))
+        exact serializerNsMap_nodflt env m hm s u hs hn0
       obtain ⟨toks, node, hg, _, hp, hs⟩ :=
         (l2_all env hE (userDefault m) kids).2 [] tag A M2 cs hcs hokk [[]] [] none [] none [] none M2
-          (by simp) hM2 K2_nil (by intro k; rfl) hA htag (fun _ => rfl) (fun _ => rfl)
+          (by simp) hYok hM2 K2_nil (by intro k; rfl) hA htag (fun _ => rfl) (fun _ => rfl)
       refine ⟨toks, node, ?_, ?_, ?_⟩
       · unfold nativeWrite
         rw [hrun]
